@@ -204,6 +204,26 @@ def run(ck, ctx):
                   f"{g.show(lhs, 2)} < {g.show(rhs, 2)}")
     ck.guard(diffuse, "R03 diffuse")
 
+    # ---------------------------------------------------------------- R03.7 the integrals leave their arguments alone
+    def arguments():
+        """compute() hands the same exit-probability, decay-length and spectral arrays to the optical and then to the
+        radio integral, and the stored columns are those arrays: an integral that scales or cuts one of them in place
+        changes what the second integral - and the results table - hold."""
+        from .effects import writes
+        for label, runs in (("diffuse", [DiffuseGeom(ctx, explicit_u=True).run_mcintegral()]),
+                            ("target", [TargetGeom(ctx, explicit=True).run_mcintegral(m) for m in ("Optical", "Radio")])):
+            for r in runs:
+                ws = writes(r, kinds=("input",))
+                for e, hit in ws:
+                    f = e.funcs()[-1] if e.funcs() else "mcintegral"
+                    tgt = ", ".join(sorted({x.attr.split("#")[0] for x in hit if x.op == "Input"}))
+                    ck.ob("R03.7", f"{label} mcintegral: argument '{tgt}' is not modified [{f} at {e.where()}]", False,
+                          e.node, f, f"{e.data.get('how')} writes into an object that may be the caller's array",
+                          construct=f"{f}: in-place {e.data.get('how')} on parameter {tgt}")
+                ck.ob("R03.7", f"{label} mcintegral modifies none of the arrays it is given", not ws, r.value,
+                      "mcintegral", f"{sum(1 for e in r.effects if e.kind == 'write')} in-place operations inspected")
+    ck.guard(arguments, "R03.7")
+
     # ---------------------------------------------------------------- stand-alone: target
     def target():
         T = TargetGeom(ctx, explicit=True)
